@@ -16,7 +16,7 @@ from bctmc.tally import Tally
 PROPERTY = 'C04'
 RULE = ('every free tree on 8 nodes under the renumberings of bctmc/trees.py for every measure of the directed and undirected tables; for each deterministic measure: all labelled inputs of its class on 4 nodes (binary digraphs 4096, binary graphs 64, '
         'weights {1,2} 729, signed {-1,0,1} 729; weights {.4,.3,.1+.2} (two values one rounding error apart; thorough also decimal {.1,.2,.3,.4}) on 4-node graphs / 3-node digraphs for the path-based weighted measures; lengths {1,2} on all 59 049 5-node graphs x the 4 adjacent transpositions (which generate every renumbering; the family is closed under renumbering) for betweenness_wei and edge_betweenness_wei (thorough: also distance_wei, local efficiency_wei); with every set partition where a community vector is an argument) x all 24 '
-        'renumberings (thorough: binary graphs on 5 nodes x 120 renumberings); non-trivial = (graph, renumbering) pairs where '
+        'renumberings (thorough: binary graphs on 5 nodes x 120 renumberings; thorough also one irregular 260-node network per class under reversal and a 97-step rotation for every measure except findwalks, erange, resource_efficiency_bin); non-trivial = (graph, renumbering) pairs where '
         'the renumbered graph differs from the graph')
 ASSUMPTIONS = ['outputs documented as order-dependent choices are excluded: Pmat/hops of distance_wei_floyd and B of '
                'distance_wei under ties, navigation paths under equal distances; heuristics with index tie-breaking '
@@ -154,6 +154,13 @@ def plan(ctx):
             units.append(('shapes', 'tree8', table, name))
     for name in SIGNED:
         units.append(('plain', 'sign', 'SIGNED', name))
+    # thorough only: one irregular 260-node network per class and two renumberings (reversal, a 97-step rotation), so that
+    # node indices beyond 256 (CPython's cached small integers, one-byte counters) change places with small ones
+    if ctx.thorough:
+        for table, T in (('DIR', DIR), ('UND', UND), ('SIGNED', SIGNED)):
+            for name in T:
+                if name.split('[')[0] not in BIG_SKIP:
+                    units.append(('big', 'big260', table, name))
     for name in WITH_CI:
         units.append(('ci', WITH_CI[name][2], 'WITH_CI', name))
     return units
@@ -161,6 +168,8 @@ def plan(ctx):
 
 def unit_cost(unit):
     mode, fam, table, name = unit[:4]
+    if mode == 'big':
+        return 500 if 'sign' in name or 'passage' in name or 'diffusion' in name else 80
     if mode == 'gen':
         return 60
     return (100 if mode == 'ci' else 0) + {'dir4': 50, 'und5': 40, 'sign': 30, 'und12': 30}.get(fam, 0) + \
@@ -259,9 +268,49 @@ def work_shapes(unit):
     return t
 
 
+BIG_N = 260
+BIG_SKIP = ('findwalks', 'erange', 'resource_efficiency_bin')    # minutes per call at this size
+
+
+def big_graph(table):
+    n = BIG_N
+    A = np.zeros((n, n))
+    for i in range(n):
+        for d in (1, 2, 5) + ((31,) if i % 11 == 0 else ()) + ((3,) if i > 250 else ()):
+            j = (i + d) % n
+            w = 1.0 + ((i * 7 + d) % 3)
+            if table == 'SIGNED' and (i + d) % 4 == 0:
+                w = -w
+            A[i, j] = w
+            if table != 'DIR' or i % 3:
+                A[j, i] = w
+    return A
+
+
+def work_big(unit):
+    mode, fam, table, name = unit
+    t = Tally(PROPERTY)
+    f, kinds = {'DIR': DIR, 'UND': UND, 'SIGNED': SIGNED}[table][name]
+    t.c['measures'] += 1
+    A = big_graph(table)
+    base = evaluate(f, A)
+    t.c['evaluations'] += 1
+    for lab, p in (('reversal', np.arange(BIG_N)[::-1]), ('rotation97', (np.arange(BIG_N) + 97) % BIG_N)):
+        other = evaluate(f, A[np.ix_(p, p)])
+        t.c['evaluations'] += 1
+        t.c['pairs_compared'] += 1
+        t.c['nontrivial'] += 1
+        compare(t, name.split('[')[0], kinds, base, other, p,
+                {'measure': name, 'family': fam, 'table': table, 'big': True, 'perm': p, 'order': lab})
+    t.sample({'measure': name, 'family': fam, 'nodes': BIG_N, 'renumberings': 2})
+    return t
+
+
 def work(unit):
     if unit[0] == 'gen':
         return work_generators(unit)
+    if unit[0] == 'big':
+        return work_big(unit)
     if unit[0] == 'shapes':
         return work_shapes(unit)
     mode, fam, table, name = unit
@@ -311,7 +360,7 @@ def work(unit):
 def replay(rec):
     t = Tally(PROPERTY)
     c = rec['case']
-    A = np.array(c['A'], dtype=float)
+    A = big_graph(c['table']) if c.get('big') else np.array(c['A'], dtype=float)
     p = np.array(c['perm'])
     name = c['measure']
     for table in (DIR, UND, SIGNED):
